@@ -678,9 +678,12 @@ def main(ctx):
         if q < 0.28:
             events.append(construct_event(rng))
             ctx.count('V_construct')
-        elif q < 0.72:
+        elif q < 0.65:
             events.append(derive_event(rng))
             ctx.count('V_derive')
+        elif q < 0.72:
+            events.append(isolation_event(rng))
+            ctx.count('V_isolation')
         elif q < 0.78:
             events.append(hier_event(rng))
             ctx.count('V_hier')
@@ -705,7 +708,7 @@ def main(ctx):
                           case={k: ev[k] for k in ev if k not in ('obs', 'id', 'post')}, actual=ev.get('obs') or ev.get('post'), clause=rej[ev['id']][0], expected=rej[ev['id']][1])
     from . import c05
     hev = []
-    for i in range(60 if quick else 1500):
+    for i in range(200 if quick else 3000):
         hev += c05.go_history(ctx, len(hev))
     for k, ev in enumerate(hev):
         ev['id'] = k
